@@ -526,7 +526,7 @@ fn history_part(rep: &mut Report) {
         while idx >= n.pow(len) { idx -= n.pow(len); len += 1; }
         let mut seq = Vec::new();
         for _ in 0..len { seq.push((idx % n) as usize); idx /= n; }
-        for (via_sink, kind, make_writer) in [(false, io::ErrorKind::Other, false), (true, io::ErrorKind::Other, false), (true, io::ErrorKind::WouldBlock, false), (true, io::ErrorKind::TimedOut, false), (false, io::ErrorKind::Other, true), (true, io::ErrorKind::WriteZero, true)] {
+        for (via_sink, kind, make_writer) in [(false, io::ErrorKind::Other, false), (true, io::ErrorKind::Other, false), (true, io::ErrorKind::WouldBlock, false), (true, io::ErrorKind::TimedOut, false), (false, io::ErrorKind::Other, true), (true, io::ErrorKind::WriteZero, true), (false, io::ErrorKind::InvalidData, false), (false, io::ErrorKind::InvalidInput, true)] {
             // first without a fault (also tells how many write calls the history makes)
             let mut fail_at: Option<usize> = None;
             let mut max_calls = 0usize;
